@@ -13,19 +13,19 @@ import (
 )
 
 type SpecCase struct {
-	Pkg          string    `json:"pkg"`
-	Func         string    `json:"func"`
-	Quick        [][]int64 `json:"quick"`
-	Thorough     [][]int64 `json:"thorough"`
+	Pkg      string    `json:"pkg"`
+	Func     string    `json:"func"`
+	Quick    [][]int64 `json:"quick"`
+	Thorough [][]int64 `json:"thorough"`
 	// cross products of [lo,hi] per parameter, appended to the explicit lists
 	QuickRanges    [][][2]int64 `json:"quick_ranges,omitempty"`
 	ThoroughRanges [][][2]int64 `json:"thorough_ranges,omitempty"`
-	Reach        []string  `json:"reach"`
-	MaxPaths     int       `json:"max_paths,omitempty"`
-	MaxSteps     int       `json:"max_steps,omitempty"`
-	MaxMapPerm   int       `json:"max_map_perm,omitempty"`
-	WitnessEvery int       `json:"witness_every,omitempty"`
-	What         string    `json:"what,omitempty"`
+	Reach          []string     `json:"reach"`
+	MaxPaths       int          `json:"max_paths,omitempty"`
+	MaxSteps       int          `json:"max_steps,omitempty"`
+	MaxMapPerm     int          `json:"max_map_perm,omitempty"`
+	WitnessEvery   int          `json:"witness_every,omitempty"`
+	What           string       `json:"what,omitempty"`
 }
 
 type SpecProp struct {
@@ -297,7 +297,7 @@ func writeEvidence(cfg Config, prop string, sp *SpecProp, s *Session, reports []
 		cov["solver"] = map[string]any{
 			"solver": s.cfg.Solver + " (" + solverVersion(s.cfg.Solver) + ")", "queries": st.Queries, "answered_from_canonical_cache": st.CacheHits,
 			"sat": st.Sat, "unsat": st.Unsat, "unknown": st.Unknown, "errors": st.Errors, "solver_seconds": st.SolverSec,
-			"branch_decisions": st.Decides, "decided_syntactically": st.FastPath, "forks": st.Forks,
+			"branch_feasibility_decided_by_byte_domain_enumeration": st.EnumQueries, "branch_decisions": st.Decides, "decided_syntactically": st.FastPath, "forks": st.Forks,
 		}
 		cov["functions_encoded"] = s.UsedByClass()
 		cov["init_notes"] = s.InitErrs
